@@ -1,5 +1,6 @@
 import StunVerif.Props.C17
 import StunVerif.Props.SrcFnParse
+import StunVerif.Props.SrcFnDecode
 #print axioms StunVerif.C17.prefix_truncated
 #print axioms StunVerif.C17.header_iff
 #print axioms StunVerif.C17.header_iff_not_nonstun
@@ -15,3 +16,12 @@ import StunVerif.Props.SrcFnParse
 #print axioms StunVerif.SrcFnParse.walk_agree
 #print axioms StunVerif.SrcFnParse.src_msgFromBytes
 #print axioms StunVerif.SrcFnParse.src_accepts_iff
+#print axioms StunVerif.SrcFnDecode.src_rawFromBytes
+#print axioms StunVerif.SrcFnDecode.src_msgTypeFromBytes
+#print axioms StunVerif.SrcFnDecode.foldl_be
+#print axioms StunVerif.SrcFnDecode.beNat_append
+#print axioms StunVerif.SrcFnDecode.pow_256_12
+#print axioms StunVerif.SrcFnDecode.pow_256_4
+#print axioms StunVerif.SrcFnDecode.cookie_iff
+#print axioms StunVerif.SrcFnDecode.len_field
+#print axioms StunVerif.SrcFnDecode.src_headerFromBytes
